@@ -175,6 +175,22 @@ func harnessC09NoteStep(kind int, nUsers int) {
 			verifAssert(smode.IsReader(), "receipt-only-from-readers")
 		}
 	}
+	// relays routed to the subscribers' 'me' topics (for their sessions that are not attached here): they must
+	// exclude the originating session by id - it may itself be attached to 'me' only - and every session that
+	// is attached to this topic and got the relay directly
+	for _, m := range verifDrainHub(fx.hub) {
+		if m == nil || m.Info == nil {
+			continue
+		}
+		verifAssert(m.SkipSid == s0.sid, "me-relay-never-to-the-originating-session")
+		verifAssert(m.Info.SkipTopic == t.name, "me-relay-skips-sessions-attached-to-the-topic")
+		verifAssert(m.Info.From == sender.UserId() && m.Info.What == what, "me-relay-carries-the-note")
+		if what == "read" || what == "recv" {
+			verifAssert(m.Info.SeqId == seq, "me-relay-carries-the-new-mark")
+		} else {
+			verifAssert(m.Info.SeqId == 0, "me-relay-of-a-typing-note-carries-no-mark")
+		}
+	}
 	checkRelay(rel0b, fx.uids[0], att0b, false)
 	checkRelay(rel1, fx.uids[1], att1, chan1)
 	checkRelay(rel2, u2, att2, chan2)
